@@ -101,7 +101,9 @@ int Model::bus_may_deliver(int r, const wire::Msg &m) {
   // replies and signals included (they are dropped, there is nobody to tell)
   bool undetermined = false;
   if (queue_full) {
-    if (multi_txn && emitted_in_event[r]++ > 0) undetermined = true;   // an earlier transaction of this event has grown the queue since it was read
+    // in an event of several transactions (a disconnect releasing several names) the bus's order among them is its
+    // own: any of them may come after another has grown the queue since it was read
+    if (multi_txn) { emitted_in_event[r]++; undetermined = true; }
     else if (queue_full(r)) { probes["dropped_recipient_queue_full"]++; return 0; }
   }
   if (!can_receive || !conns[(size_t)r].hello) return undetermined ? 2 : 1;
@@ -406,7 +408,7 @@ void Model::route_matches(int sender, const wire::Msg &m, int addressed, bool re
     }
     bool queue_undetermined = false;
     if (queue_full) {
-      if (multi_txn && emitted_in_event[(int)rc]++ > 0) queue_undetermined = true;
+      if (multi_txn) { emitted_in_event[(int)rc]++; queue_undetermined = true; }
       else if (queue_full((int)rc)) { probes["dropped_recipient_queue_full"]++; monitors_may_see_refusal(sender, m, E_LIMITS); continue; }
       if (queue_undetermined) monitors_may_see_refusal(sender, m, E_LIMITS);
     }
@@ -915,6 +917,16 @@ void Model::driver(int c, const wire::Msg &m) {
     activation_join(name, c, m, true);
     return;
   }
+  if (member == "UpdateActivationEnvironment") {
+    // "normally, session bus activated services inherit the environment of the bus daemon; this method adds to
+    // or modifies that environment when activating services" (no service helper and no systemd activation here)
+    if (!(m.body.size() == 1 && m.body[0].type == 'a' && m.body[0].sig == "{ss}")) { reply_err(c, m, ""); return; }
+    for (auto &de : m.body[0].kids)
+      if (de.kids.size() == 2) act_env[de.kids[0].str].insert(de.kids[1].str);
+    probes["activation_environment_updated"]++;
+    reply_ok(c, m, {});
+    return;
+  }
   if (member == "ReloadConfig") {
     if (!m.body.empty()) { reply_err(c, m, ""); return; }
     // "ReloadConfig: request the bus to reload its configuration": limits, policy and service directories of the
@@ -1133,7 +1145,9 @@ void Model::process(int c, const wire::Msg &orig) {
       e.m.set_field(wire::F_SENDER, wire::Value::string(BUS));
       e.error_any_of = {E_UNKNOWN, E_NOOWNER};
       e.ignore_body = true;
-      e.optional = m.type != wire::T_CALL || (m.flags & wire::FL_NO_REPLY_EXPECTED) != 0;
+      // (NO_REPLY_EXPECTED is a hint for the CALLEE; "a method call that cannot be delivered produces exactly one
+      // error reply to its sender" - the reference bus reports every dispatch failure whatever the flags)
+      e.optional = m.type != wire::T_CALL;
       e.what = "error: destination has no owner";
       e.prop = "C05";
       emit_from_bus(c, e);
